@@ -1230,3 +1230,25 @@ def child_execution_routing(aio_mod: bool, cfg: int, res: int, named: bool) -> b
 # ---------------------------------------------------------------------------
 import c19_affinity as _aff
 _aff.register(globals())
+
+
+# ---------------------------------------------------------------------------
+# "acknowledging a message acknowledges that delivery and no other", at the engine's own call sites: whole runs over
+# the simulated broker, whose Message.acknowledge has the transports' default multiple=True, watched by the
+# multiple-ack monitor (a settle of any delivery other than the acknowledged one is a violation)
+# ---------------------------------------------------------------------------
+import s2_found as _found
+_found.register(globals(), {"C19", "C03"}, ["orphan_dropped_beside_waiting"])
+globals()["orphan_dropped_beside_waiting"].__module__ = __name__
+import vh_c15 as _c15
+
+
+@condition(timeout={"quick": 300, "thorough": 900},
+           functions=["TaskDispatcher.handle_rpcmessage_response (every acknowledge call site: reply, ignored reply of a callback Task, duplicate/late callback)", "EventDispatcher.acknowledge"],
+           note="callback Task streams (valid token, duplicate, forged then valid, ordinary reply first) beside the Task's own outstanding event")
+def ack_settles_only_that_delivery(stream: int, c0: int, c1: int, c2: int, c3: int) -> str:
+    """
+    requires: 0 <= stream < 4
+    ensures: _ == ""
+    """
+    return _c15._cb_scenario({"C19", "C03"}, stream, c0, c1, c2, c3)
